@@ -151,6 +151,8 @@ func ndSites(c *Check, fn *ssa.Function) []ndSite {
 					switch {
 					case n == "time.Now" || n == "time.Since" || n == "time.Until":
 						out = append(out, ndSite{fn, "wall-clock", n, v.Pos(), v})
+					case n == "time.Unix" || n == "time.UnixMilli" || n == "time.UnixMicro" || n == "time.(Time).Local" || n == "time.(Time).In":
+						out = append(out, ndSite{fn, "local-zone", n, v.Pos(), v})
 					case n == "runtime.NumCPU" || n == "runtime.GOMAXPROCS" || n == "runtime.SetFinalizer" || n == "runtime.NumGoroutine":
 						out = append(out, ndSite{fn, "runtime", n, v.Pos(), v})
 					default:
@@ -466,6 +468,12 @@ func c14(c *Check) {
 					continue
 				}
 				_ = why
+			case "local-zone":
+				// time.Unix yields a Time in the node's local zone: harmless while only zone-independent questions are asked of it
+				if call, ok := s.Ins.(*ssa.Call); ok && call.Referrers() != nil && zoneIndependentUses(c, call, 0) {
+					c.Ok("C14/nondeterminism-source", construct, s.Pos, "the local-zone Time is only compared / converted back to numbers / normalised with UTC()")
+					continue
+				}
 			case "wall-clock":
 				if call, ok := s.Ins.(*ssa.Call); ok && call.Referrers() != nil {
 					all := len(*call.Referrers()) > 0
@@ -532,6 +540,44 @@ func c14(c *Check) {
 		audited := strings.HasPrefix(funcName(f), "eth/types.") && (strings.Contains(funcName(f), "lru") || strings.Contains(funcName(f), "Ethash") || strings.Contains(funcName(f), "remoteSealer") || strings.Contains(funcName(f), "cache") || strings.Contains(funcName(f), "dataset"))
 		c.Req(audited, "C14/no-node-local-state", funcName(f), f.Pos(), "audited: per-instance ethash structure of a throw-away verifier", "node-local state written during block processing: "+strings.Join(ws, "; "))
 	}
+	c.Rule("C14/no-shared-stateful-helpers", "block processing reads no package-level variable that can carry state between calls or be shared between goroutines: function values (closures over buffers / hashers), channels, sync and hash objects, maps and slices that are not written only at init time are flagged unless audited", 1)
+	{
+		audited := map[string]string{
+			"eth/types.hasherPool":          "sync.Pool of keccak states: Get hands an object to one goroutine at a time and rlpHash resets it before use",
+			"bsc/types.hasherPool":          "sync.Pool of keccak states: Get hands an object to one goroutine at a time and rlpHash resets it before use",
+			"client/types.IsRevisionFormat": "method value of a compiled regular expression (immutable, safe for concurrent use)",
+			"eth/types.sharedEthash":        "only assigned to an instance whose Config.PowMode is ModeShared; the verifier is built from the zero Config (side condition no-disk-config of the ethash audit checks the Config literals)",
+		}
+		seenG := map[string]bool{}
+		for _, f := range fns {
+			for _, b := range f.Blocks {
+				for _, ins := range b.Instrs {
+					if c.P.IsClone(ins) {
+						continue
+					}
+					var buf [8]*ssa.Value
+					for _, op := range ins.Operands(buf[:0]) {
+						g, ok := (*op).(*ssa.Global)
+						if !ok || g.Pkg == nil || !strings.HasPrefix(g.Pkg.Pkg.Path(), modPath) {
+							continue
+						}
+						kind := statefulKind(g.Type().(*types.Pointer).Elem())
+						if kind == "" {
+							continue
+						}
+						name := short(g.Pkg.Pkg.Path()) + "." + g.Name()
+						if seenG[name] {
+							continue
+						}
+						seenG[name] = true
+						why, ok2 := audited[name]
+						c.Req(ok2, "C14/no-shared-stateful-helpers", name+" ("+kind+")", ins.Pos(), "audited: "+why, "package-level "+kind+" "+name+" is used in block processing (first use in "+funcName(f)+"): an object of this kind keeps state between calls and is shared with concurrently running queries / simulations, so results depend on what else the node process is doing")
+					}
+				}
+			}
+		}
+		c.Ok("C14/no-shared-stateful-helpers", "globals of reachable code scanned", token.NoPos, fmt.Sprint(len(seenG), " stateful-kind global(s)"))
+	}
 	c.Rule("C14/keepers-hold-no-state", "every Keeper struct of the repository consists of wiring only (interfaces, parameter subspace, other keepers, basic values): no pointer, map, slice, channel, function or foreign struct field that could carry values from one block (or query) to the next in process memory", 20)
 	keeperFieldsRule(c, "C14/keepers-hold-no-state", nil)
 	c.Rule("C14/audited-node-configuration", "the application constructor reads node-local configuration (app.toml, flags) only under audited keys, none of which reaches block processing", 2)
@@ -549,4 +595,92 @@ func c14(c *Check) {
 			}
 		}
 	}
+}
+
+// zoneIndependentUses: every use of the Time value asks a question whose answer does not depend on its location.
+func zoneIndependentUses(c *Check, v ssa.Value, depth int) bool {
+	refs := v.Referrers()
+	if refs == nil || depth > 4 {
+		return false
+	}
+	okMethods := map[string]bool{"Unix": true, "UnixNano": true, "UnixMilli": true, "UnixMicro": true, "Before": true, "After": true, "Equal": true, "Sub": true, "IsZero": true, "UTC": true, "Compare": true}
+	chain := map[string]bool{"Add": true, "AddDate": true, "Round": true, "Truncate": true} // result is again a Time in the same zone
+	for _, r := range *refs {
+		switch t := r.(type) {
+		case ssa.CallInstruction:
+			cf := c.P.resolveCallee(t.Common())
+			if cf == nil || !strings.HasPrefix(funcName(cf), "time.(Time).") || len(t.Common().Args) == 0 {
+				return false
+			}
+			switch {
+			case okMethods[cf.Name()]:
+			case chain[cf.Name()]:
+				val, isVal := r.(ssa.Value)
+				if !isVal || !zoneIndependentUses(c, val, depth+1) {
+					return false
+				}
+			default:
+				return false
+			}
+		case *ssa.Store:
+			// spilled into a local that is only read back for further method calls
+			al, isAlloc := t.Addr.(*ssa.Alloc)
+			if !isAlloc || al.Referrers() == nil {
+				return false
+			}
+			for _, u := range *al.Referrers() {
+				if ld, isLoad := u.(*ssa.UnOp); isLoad {
+					if !zoneIndependentUses(c, ld, depth+1) {
+						return false
+					}
+				} else if u != ssa.Instruction(t) {
+					return false
+				}
+			}
+		case *ssa.Phi:
+			if !zoneIndependentUses(c, t, depth+1) {
+				return false
+			}
+		default:
+			return false
+		}
+	}
+	return true
+}
+
+// statefulKind classifies the type of a package-level variable that can hold hidden state ("" = plain data).
+func statefulKind(t types.Type) string { return statefulKindD(t, 0) }
+
+func statefulKindD(t types.Type, depth int) string {
+	if depth > 3 {
+		return ""
+	}
+	switch u := t.Underlying().(type) {
+	case *types.Signature:
+		return "function value"
+	case *types.Chan:
+		return "channel"
+	case *types.Pointer:
+		return statefulKindD(u.Elem(), depth+1)
+	case *types.Interface:
+		if nt, ok := t.(*types.Named); ok && nt.Obj().Pkg() != nil {
+			p := nt.Obj().Pkg().Path()
+			if p == "hash" || strings.HasPrefix(p, "crypto/") || strings.HasSuffix(p, "/sha3") {
+				return "hash object"
+			}
+		}
+	case *types.Struct:
+		if nt, ok := t.(*types.Named); ok && nt.Obj().Pkg() != nil {
+			p := nt.Obj().Pkg().Path()
+			if p == "sync" || p == "sync/atomic" || strings.Contains(p, "lru") || strings.Contains(p, "/cache") {
+				return p + " object"
+			}
+		}
+		for i := 0; i < u.NumFields(); i++ {
+			if k := statefulKindD(u.Field(i).Type(), depth+1); strings.HasSuffix(k, " object") && (strings.HasPrefix(k, "sync") || strings.Contains(k, "lru")) {
+				return "struct holding a " + k
+			}
+		}
+	}
+	return ""
 }
